@@ -1,6 +1,7 @@
 import P2PVerif.Model.Reasm
 import P2PVerif.Model.Mux
 import P2PVerif.Lemmas.MTU
+import P2PVerif.Lemmas.SrcVec
 /-! # C09 — MTU is honest: anything up to MTU is sendable intact, anything above is refused
 Property theorems only; per layer (fragmenting swarm, message-box swarm, multiplexers, P2PKE framing). The
 constants are regenerated from the source into `Gen.Facts` on every run. -/
@@ -40,5 +41,14 @@ theorem mbapp_over_mtu_rejected (innerMTU cfgMTU : Nat) (h : Mbapp.Hdr) (payload
 theorem mux_mtu_exact (k : Mux.Kind) (c : Mux.Chan) (innerMTU : Nat) (x : Bytes) :
     (Mux.tell k c innerMTU x).isSome ↔ (x.length : Int) ≤ Mux.mtu k c innerMTU :=
   MTU.mux_mtu_exact k c innerMTU x
+
+/-- ⊢ regenerated size: the `p2p.VecSize` every layer compares with its MTU, REGENERATED from swarm.go, is the
+    number of bytes `p2p.VecBytes` gathers from the same vector — so the size that is checked is the size that
+    is sent, for every vector (any number of segments, empty segments included), with no run-time fault. -/
+theorem src_VecSize_is_gathered_length (v : List Go.Bytes) :
+    Src.p2p.VecSize v = .ok (v.flatten.length : Int) ∧ Src.p2p.VecBytes [] v = .ok v.flatten :=
+  ⟨Src.VecSize_eq v, by simpa using Src.VecBytes_eq [] v⟩
+
+example : Src.p2p.VecSize [[1, 2], [], [3]] = .ok 3 := rfl
 
 end P2PVerif.C09
